@@ -113,7 +113,8 @@ def run_level(ctx, rep):
         reported = set()
         for k, e in t["events"]:
             if k == "FILT" and e["site"] in ("es", "search") and e.get("out") and e.get("sms"):
-                box_reqs.append({"cmd": "mesh.bounds", "h": enc(e["sms"]), "lb": [enc(v) for v in t["hdr"]["lb"]], "ub": [enc(v) for v in t["hdr"]["ub"]]})
+                box_reqs.append({"cmd": "mesh.bounds", "h": enc(e["sms"]), "lb": [enc(v) for v in (t["hdr"].get("lb_ref") or t["hdr"]["lb"])],
+                                 "ub": [enc(v) for v in (t["hdr"].get("ub_ref") or t["hdr"]["ub"])]})      # the box of a FRESH transform of the original bounds
                 box_owners.append((case, tag, e))
             if k == "FILT" and e["site"] == "es":
                 es_out.append(e["n_out"])
